@@ -257,6 +257,13 @@ def oracle(ctx, deep=False, broken=None):
         if deform[0] is not None:   # the same on an object that was used and deformed before
             cases.append({'class': cls, 'size': list(size), 'deform': [deform[0], deform[1]], 'reuse': True,
                           'errors': structured_errors(code, rng, 4)})
+    if deep:
+        # codes with more than 255 / 512 qubits (dtype wrap-around and blocking in dense products live there)
+        for cls, size in (('Toric2DCode', (12, 12)), ('Toric3DCode', (5, 5, 5)), ('Planar2DCode', (12, 11)),
+                          ('RotatedPlanar2DCode', (17, 16)), ('Toric2DCode', (16, 17))):
+            code = K.build(cls, size, (None, {}))
+            cases.append({'class': cls, 'size': list(size), 'deform': [None, {}],
+                          'errors': structured_errors(code, rng, 6)})
     fails = []
     n_eval = 0
     seen = set()
